@@ -35,7 +35,7 @@ BytesVals == {B0, B1, B12, Ta, Nat2I(1), Nil, Arr(<<B1>>)}
 CsVals == {SigMin, SigA0, SigAlg, SigBadSlot, SigBadProt, SigProtTrail, SigArity2, SigNested, SigNilFirst, EmptyArr,
            Arr(<<SigMin>>), Arr(<<SigMin, SigAlg>>), Arr(<<SigMin, Nat2I(1)>>), Arr(<<SigAlg, SigBadProt>>), Arr(<<EmptyArr>>),
            Arr(<<Nat2I(1), Nat2I(2), Nat2I(3)>>), Nil, B0, EmptyMap}
-OtherLabels == {Nat2I(0), Nat2I(8), Nat2I(9), Nat2I(10), Z2I(33), Z2I(256), Neg2I(1), Neg2I(65537), I63max, N63, Ta, Te}
+OtherLabels == {Nat2I(0), Nat2I(8), Nat2I(9), Nat2I(10), Nat2I(24), Z2I(33), Z2I(256), Neg2I(25), Neg2I(1), Neg2I(65537), I63max, N63, Ta, Te}
 OtherVals == {Nat2I(1), B0, Tt, Nil, F15, U64max, Arr(<<B1>>)}
 BadLabels == {B1, I63, N63m1, EmptyArr, Nil}
 
